@@ -131,7 +131,12 @@ fn main() {
                     Some(x) => x,
                     None => ("harness-panic".into(), vec!["uncaught panic in harness".into()]),
                 };
+                // `big=1`: implementation-side oracles only (the model driver prints `BIG` too)
+                let obs = if line.contains(" big=1") { "BIG".to_string() } else { obs };
                 writeln!(out, "{}\t{}", obs, fails.join("; ")).unwrap();
+                // one flush per case: if a case kills the process (stack overflow, allocation
+                // abort) the number of complete lines tells the check which case it was
+                out.flush().unwrap();
             }
         }
         Some("shrink") => {
